@@ -162,3 +162,56 @@ package stream
 //@ ensures.fail[C05] any && ret(metadata.Metadata.Save, 0) != nil ==> calls(stream.Stream.UnmarkDirtyOffsets) == 0 && st.dirtyOffsets == dirt && unchanged(st.dirtyOffsets) && st.anyDirtyOffset == any
 //@ ensures.positions[C01] st.offsets == offs && unchanged(st.offsets)
 //@ modifies st.anyDirtyOffset, st.dirtyOffsets, s.metric.OffsetWrite, s.metric.OffsetWriteLatency, calls(metadata.Metadata.Save), calls(stream.Stream.UnmarkDirtyOffsets), calls(stream.Stream.GetOffsets)
+
+// Assumed contracts at the store / client boundary used by Load.
+//@ iface metadata.Metadata.Load
+//@ params recv vbIds bucketUUID
+//@ ensures result2 == nil ==> result0 != nil && forall vb uint16 :: has(result0, vb) ==> result0[vb] != nil && result0[vb].Checkpoint != nil && result0[vb].Checkpoint.Snapshot != nil
+//@ modifies nothing
+
+//@ iface couchbase.Client.GetVBucketSeqNos
+//@ params recv awareCollection
+//@ ensures result1 == nil ==> result0 != nil
+//@ modifies nothing
+
+//@ iface couchbase.Client.GetFailOverLogs
+//@ params recv vbID
+//@ ensures result1 == nil ==> len(result0) > 0
+//@ modifies nothing
+
+//@ func (*checkpoint).Load
+//@ props C02 C06 C15
+//@ requires s != nil && s.loadLock != nil && s.metadata != nil && s.client != nil && s.config != nil && s.offsetLatestSeqNoInit != nil && s.offsetLatestSeqNoInit.config != nil
+//@ let dump = ret(metadata.Metadata.Load, 0, 0)
+//@ let exist = ret(metadata.Metadata.Load, 0, 1)
+//@ let lerr = ret(metadata.Metadata.Load, 0, 2)
+//@ let seqs = ret(couchbase.Client.GetVBucketSeqNos, 0, 0)
+//@ let serr = ret(couchbase.Client.GetVBucketSeqNos, 0, 1)
+//@ let latest = !exist && s.config.Checkpoint.AutoReset == "latest"
+//@ let finite = s.offsetLatestSeqNoInit.config.Dcp.Mode == "finite"
+//@ loop $1
+//@   invariant.dom forall vb uint16 :: has(offsets, vb) == visited[vb]
+//@   invariant.pos forall vb uint16 :: visited[vb] ==> offsets[vb] != nil && offsets[vb].SnapshotMarker != nil && offsets[vb].SeqNo == ite(has(seqNoMap, vb), seqNoMap[vb], 0) && offsets[vb].StartSeqNo == offsets[vb].SeqNo && offsets[vb].EndSeqNo == offsets[vb].SeqNo && offsets[vb].LatestSeqNo == ite(finite, offsets[vb].SeqNo, 0xffffffffffffffff)
+//@   invariant.branch forall vb uint16 :: visited[vb] ==> old(ncalls(couchbase.Client.GetFailOverLogs)) <= lastcall(couchbase.Client.GetFailOverLogs, vbID, vb) && lastcall(couchbase.Client.GetFailOverLogs, vbID, vb) < ncalls(couchbase.Client.GetFailOverLogs) && argat(couchbase.Client.GetFailOverLogs, lastcall(couchbase.Client.GetFailOverLogs, vbID, vb), vbID) == vb && retat(couchbase.Client.GetFailOverLogs, lastcall(couchbase.Client.GetFailOverLogs, vbID, vb), 1) == nil && offsets[vb].VbUUID == retat(couchbase.Client.GetFailOverLogs, lastcall(couchbase.Client.GetFailOverLogs, vbID, vb), 0)[0].VbUUID
+//@   invariant.dirty forall vb uint16 :: has(dirtyOffsets, vb) == (visited[vb] && offsets[vb].SeqNo != 0)
+//@   invariant.dirtyval forall vb uint16 :: has(dirtyOffsets, vb) ==> dirtyOffsets[vb] == true
+//@   invariant.any anyDirtyOffset == (exists vb uint16 :: visited[vb] && offsets[vb].SeqNo != 0)
+//@   modifies content(offsets), content(dirtyOffsets), newobjs(models.Offset), newobjs(models.SnapshotMarker), calls(couchbase.Client.GetFailOverLogs)
+//@ loop $2
+//@   invariant.dom forall vb uint16 :: has(offsets, vb) == visited[vb]
+//@   invariant.pos forall vb uint16 :: visited[vb] ==> offsets[vb] != nil && offsets[vb].SnapshotMarker != nil && offsets[vb].SeqNo == dump[vb].Checkpoint.SeqNo && offsets[vb].VbUUID == dump[vb].Checkpoint.VbUUID && offsets[vb].StartSeqNo == dump[vb].Checkpoint.Snapshot.StartSeqNo && offsets[vb].EndSeqNo == dump[vb].Checkpoint.Snapshot.EndSeqNo && offsets[vb].LatestSeqNo == ite(finite, ite(has(seqNoMap, vb), seqNoMap[vb], 0), 0xffffffffffffffff)
+//@   invariant.notahead forall vb uint16 :: visited[vb] ==> dump[vb].Checkpoint.SeqNo <= ite(has(seqNoMap, vb), seqNoMap[vb], 0)
+//@   modifies content(offsets), newobjs(models.Offset), newobjs(models.SnapshotMarker)
+//@ ensures.loaded[C15] lerr == nil && serr == nil && calls(metadata.Metadata.Load) == 1 && calls(couchbase.Client.GetVBucketSeqNos) == 1
+//@ ensures.asked[C02] arg(metadata.Metadata.Load, 0, recv) == old(s.metadata) && arg(metadata.Metadata.Load, 0, vbIds) == old(s.vbIds) && arg(metadata.Metadata.Load, 0, bucketUUID) == old(s.bucketUUID)
+//@ ensures.dom[C02] forall vb uint16 :: has(result0, vb) == has(dump, vb)
+//@ ensures.fresh[C02] fresh(result0) && fresh(result1)
+//@ ensures.resume[C02,C06] !latest ==> forall vb uint16 :: has(dump, vb) ==> result0[vb] != nil && result0[vb].SnapshotMarker != nil && result0[vb].SeqNo == dump[vb].Checkpoint.SeqNo && result0[vb].VbUUID == dump[vb].Checkpoint.VbUUID && result0[vb].StartSeqNo == dump[vb].Checkpoint.Snapshot.StartSeqNo && result0[vb].EndSeqNo == dump[vb].Checkpoint.Snapshot.EndSeqNo
+//@ ensures.end[C02] !latest ==> forall vb uint16 :: has(dump, vb) ==> result0[vb].LatestSeqNo == ite(finite, ite(has(seqs, vb), seqs[vb], 0), 0xffffffffffffffff)
+//@ ensures.notahead[C15] !latest ==> forall vb uint16 :: has(dump, vb) ==> dump[vb].Checkpoint.SeqNo <= ite(has(seqs, vb), seqs[vb], 0)
+//@ ensures.clean[C05] !latest ==> result2 == false && forall vb uint16 :: !has(result1, vb)
+//@ ensures.latest[C02,C06] latest ==> forall vb uint16 :: has(dump, vb) ==> result0[vb] != nil && result0[vb].SnapshotMarker != nil && result0[vb].SeqNo == ite(has(seqs, vb), seqs[vb], 0) && result0[vb].StartSeqNo == result0[vb].SeqNo && result0[vb].EndSeqNo == result0[vb].SeqNo && result0[vb].LatestSeqNo == ite(finite, result0[vb].SeqNo, 0xffffffffffffffff)
+//@ ensures.latestbranch[C02,C06] latest ==> forall vb uint16 :: has(dump, vb) ==> old(ncalls(couchbase.Client.GetFailOverLogs)) <= lastcall(couchbase.Client.GetFailOverLogs, vbID, vb) && lastcall(couchbase.Client.GetFailOverLogs, vbID, vb) < ncalls(couchbase.Client.GetFailOverLogs) && argat(couchbase.Client.GetFailOverLogs, lastcall(couchbase.Client.GetFailOverLogs, vbID, vb), vbID) == vb && retat(couchbase.Client.GetFailOverLogs, lastcall(couchbase.Client.GetFailOverLogs, vbID, vb), 1) == nil && result0[vb].VbUUID == retat(couchbase.Client.GetFailOverLogs, lastcall(couchbase.Client.GetFailOverLogs, vbID, vb), 0)[0].VbUUID
+//@ ensures.latestdirty[C05] latest ==> (forall vb uint16 :: has(result1, vb) == (has(dump, vb) && result0[vb].SeqNo != 0)) && (forall vb uint16 :: has(result1, vb) ==> result1[vb] == true) && result2 == (exists vb uint16 :: has(dump, vb) && result0[vb].SeqNo != 0)
+//@ onpanic.why[C02] lerr != nil || serr != nil || (latest && calls(couchbase.Client.GetFailOverLogs) > 0 && retat(couchbase.Client.GetFailOverLogs, ncalls(couchbase.Client.GetFailOverLogs) - 1, 1) != nil) || (!latest && exists vb uint16 :: has(dump, vb) && dump[vb].Checkpoint.SeqNo > ite(has(seqs, vb), seqs[vb], 0))
+//@ modifies calls(metadata.Metadata.Load), calls(couchbase.Client.GetVBucketSeqNos), calls(couchbase.Client.GetFailOverLogs)
